@@ -171,6 +171,46 @@ def rule_A(ck, units):
         ck.brk('coarsening classes not instantiated: %s' % missing)
 
 
+def rule_A_wrapper(ck, units):
+    """a coarsening that wraps another one (it obtains its transfer operators from `member.transfer_operators(..)`: coarsening::as_scalar)
+    has no coarse-operator formula of its own: whether the Galerkin product is rescaled is the wrapped policy's decision, so
+    coarse_operator(A, P, R) is `member.coarse_operator(A, P, R)`."""
+    ck.rule('A.wrapper-delegates', 'a coarsening that takes its transfer operators from a wrapped policy (as_scalar) forwards coarse_operator(A, P, R) to that policy with the same '
+                                   'arguments: the rescaling of plain aggregation survives the wrapper', 1)
+    done = set()
+    for u in units.values():
+        by = {}
+        for f in u.funcs:
+            if f.cls and f.cls.startswith('amgcl::coarsening::') and f.body is not None:
+                by.setdefault(f.clsfull or f.cls, []).append(f)
+        for cls, fs in sorted(by.items()):
+            wrapped = set()
+            for g in fs:
+                if g.q.split('::')[-1] == 'transfer_operators':
+                    for c in g.calls():
+                        o = unwrap(c['obj']) if c.get('obj') is not None else None
+                        if c.get('m') == 'transfer_operators' and o is not None and o['k'] == 'mem' and (o.get('b') is None or unwrap(o['b'])['k'] == 'this'):
+                            wrapped.add(o['n'])
+            if not wrapped:
+                continue
+            for g in fs:
+                if g.q.split('::')[-1] != 'coarse_operator' or len(g.params) != 3 or (cls.split('<')[0], g.line) in done:
+                    continue
+                done.add((cls.split('<')[0], g.line))
+                ok = False
+                for r in g.returns():
+                    e = unwrap(r['e'])
+                    while e is not None and e['k'] in ('ctor', 'cast') and (e.get('a') or e.get('e')):
+                        e = unwrap(e['a'][0] if e.get('a') else e['e'])
+                    if e is not None and e['k'] == 'call' and e.get('m') == 'coarse_operator' and e.get('obj') is not None:
+                        o = unwrap(e['obj'])
+                        args = [unwrap(a) for a in e.get('a', [])]
+                        ok = o is not None and o['k'] == 'mem' and o['n'] in wrapped and len(args) == 3 and all(a is not None and a['k'] == 'ref' and a['d'] == g.params[i] for i, a in enumerate(args))
+                ck.ob('A.wrapper-delegates', cls.split('<')[0], g.where(), ok, '' if ok else
+                      '%s takes its transfer operators from the wrapped policy `%s` but computes the coarse operator itself: for a wrapped plain aggregation the division by over_interp is lost' % (
+                          cls.split('<')[0], sorted(wrapped)[0]))
+
+
 def rule_A_mpi(ck, units):
     ck.rule('A.galerkin-mpi', 'distributed coarse_operator(A, P, R) returns product(R, product(A, P)) (scaled for plain aggregation)', 2)
     for u in units.values():
@@ -553,6 +593,7 @@ def main(tier):
     units = ir.run_units(specs, 'C03')
     ck.add_units(units, specs)
     rule_A(ck, units)
+    rule_A_wrapper(ck, units)
     rule_B(ck, units)
     rule_C(ck, units)
     rule_D(ck, units)
